@@ -581,9 +581,12 @@ func clientAcksWire(name, ns string, bound int) *vx.Scenario {
 type payload struct{ attachments int }
 
 func (p payload) args() []any {
-	if p.attachments < 0 {
+	if p.attachments == -1 {
 		// cannot be encoded (encoding/json refuses channels): nothing is sent, the ack still gets its timeout
 		return []any{"x", make(chan int)}
+	}
+	if p.attachments < -1 {
+		return []any{"x"}
 	}
 	out := []any{"x"}
 	for i := 0; i < p.attachments; i++ {
@@ -624,7 +627,16 @@ func clientOffline(name string, payloads []payload, connectLater bool, bound int
 				ev = "never" // (no handler: nothing may arrive anyway)
 			}
 			args := append(p.args(), func(err error, s string) { logs[i].add(errStr(err) + "|" + s) })
-			sock.Timeout(T).Emit(ev, args...)
+			switch p.attachments {
+			case -2:
+				// the timeout first, then the volatile flag: still an ack with a timeout (the packet is dropped
+				// while disconnected, the callback gets the timeout error)
+				sock.Timeout(T).Volatile().Emit(ev, "x", args[len(args)-1])
+			case -3:
+				sock.Volatile().Timeout(T).Emit(ev, "x", args[len(args)-1])
+			default:
+				sock.Timeout(T).Emit(ev, args...)
+			}
 		}
 		var after cbLog
 		cliConnected := false
@@ -646,8 +658,13 @@ func clientOffline(name string, payloads []payload, connectLater bool, bound int
 			for i := range payloads {
 				out = append(out, fmt.Sprint(logs[i].calls))
 				what := fmt.Sprintf("%s emit#%d (%d attachments, buffered offline)", name, i, payloads[i].attachments)
-				if payloads[i].attachments < 0 {
+				switch payloads[i].attachments {
+				case -1:
 					what = fmt.Sprintf("%s emit#%d (an argument that cannot be encoded)", name, i)
+				case -2:
+					what = fmt.Sprintf("%s emit#%d (Timeout(T).Volatile(): dropped while disconnected)", name, i)
+				case -3:
+					what = fmt.Sprintf("%s emit#%d (Volatile().Timeout(T): dropped while disconnected)", name, i)
 				}
 				judgeTimeoutAck(&r, what, "client offline", logs[i].calls, "", false, true)
 			}
@@ -829,6 +846,8 @@ func scenariosMode(tier string, early bool) []*vx.Scenario {
 		clientOffline("client-offline/never-connects", []payload{{2}, {0}}, false, b2, early),
 		clientOffline("client-offline/unencodable-argument", []payload{{-1}}, true, b2, early),
 		clientOffline("client-offline/unencodable-then-text", []payload{{-1}, {0}}, true, b2, early),
+		clientOffline("client-offline/timeout-then-volatile", []payload{{-2}, {0}}, true, b2, early),
+		clientOffline("client-offline/volatile-then-timeout", []payload{{-3}}, true, b2, early),
 
 		clientOnline("client-online/ack-at-once", []time.Duration{0}, 0, 0, b2, early),
 		clientOnline("client-online/ack-at-T", []time.Duration{T}, 0, 0, b2, early),
